@@ -297,7 +297,7 @@ func VHarness_TestedPackageNeverCached() {
 	VReach("tested-package-checked")
 }
 
-var vAlt = [...]string{"", "x", "/a/b"}
+var vAlt = [...]string{"", "/a/b"}
 
 // vCfg: the baseline configuration with each field either kept or replaced by one of two other values (symbolic choice per field).
 func vCfg(prefix string) (*BuildCache, string) {
